@@ -1553,3 +1553,72 @@ for (_vid, _prop, _rules, _seed, _note) in (
         ('recv-view-ends-on-writers-zero', 'C01', ['P6b'], 'C01-r9', 'recv_view reports the end on writers==0 without looking at the slot again')):
     VARIANTS.append({'id': _vid, 'property': _prop, 'expect': _rules, 'edits': [], 'kind': 'violating', 'note': _note,
                      'patch': _os.path.join(_os.path.dirname(_os.path.dirname(_os.path.abspath(__file__))), 'seeded', _seed, 'patch.diff')})
+
+# violating edits on top of a refactoring that turned the `is_single` bool into a two-valued enum (refactors/recv6-4): the
+# loop-invariant flag is specialised per value (core._thread_jumps); the pin/unpin rules must still see the slips
+_RF = _os.path.join(_os.path.dirname(_os.path.dirname(_os.path.abspath(__file__))), 'refactors')
+VARIANTS.append({'id': 'enumflag-unpin-wrong-mode', 'property': 'C02', 'expect': ['P3b'], 'kind': 'violating', 'patch': _os.path.join(_RF, 'recv6-4.diff'),
+                 'edits': [E(MQ, """                fence(Release);
+                if access == SlotAccess::Shared {
+                    RW::dec_ref(&ref_cell.refcnt);""", """                fence(Release);
+                if access == SlotAccess::Exclusive {
+                    RW::dec_ref(&ref_cell.refcnt);""")],
+                 'note': 'after the bool -> enum refactoring the unpin is done in the wrong mode: a shared receive keeps the slot pinned'})
+VARIANTS.append({'id': 'enumflag-mode-swapped', 'property': 'C02', 'expect': ['P3b', 'P3c'], 'kind': 'violating', 'patch': _os.path.join(_RF, 'recv6-4.diff'),
+                 'edits': [E(MQ, """        let access = if reader.is_single() {
+            SlotAccess::Exclusive
+        } else {
+            SlotAccess::Shared
+        };""", """        let access = if reader.is_single() {
+            SlotAccess::Shared
+        } else {
+            SlotAccess::Exclusive
+        };""")],
+                 'note': 'after the bool -> enum refactoring the two modes are swapped: shared consumers copy without the pin'})
+
+# ---- round 10 (feature / bug-fix commits): seeded patches as violating variants of the rules they produced, and their
+# repaired forms as behaviour-preserving twins
+_SEED = _os.path.join(_os.path.dirname(_os.path.dirname(_os.path.abspath(__file__))), 'seeded')
+BC = 'src/broadcast.rs'
+for (_id, _seed, _prop, _exp, _note) in [
+        ('r10-peek-stash', 'C02-r10', 'C02', ['S6'], 'a peeked value parked in the receive handle'),
+        ('r10-peek-ref-escapes', 'C04-r10', 'C04', ['P4r'], 'try_peek returns a reference into the slot'),
+        ('r10-shared-stream-count', 'C11-r10', 'C11', ['P5n'], 'a stream published with n registered consumers and n-1 clones registering again'),
+        ('r10-replay-start', 'C03-r10', 'C03', ['P10a'], 'start position handed in by the caller (tail cache snapshot)'),
+        ('r10-futiter-quiet-recv', 'C14-r10', 'C14', ['P11d'], 'a new iterator over a futures receiver that does not wake producers per element'),
+        ('r10-user-code-in-list-walk', 'C16-r10', 'C16', ['P12u'], 'user closure called while the stream list is walked'),
+        ('r10-stored-result-not-send', 'C19-r10', 'C19', ['W19'], 'a closure result stored in a handle whose unsafe impl Send does not bound it')]:
+    VARIANTS.append({'id': _id, 'property': _prop, 'expect': _exp, 'edits': [], 'kind': 'violating',
+                     'patch': _os.path.join(_SEED, _seed, 'patch.diff'), 'note': _note})
+VARIANTS.append({'id': 'r10fix-shared-stream-one', 'property': None, 'expect': [], 'kind': 'refactor', 'patch': _os.path.join(_SEED, 'C11-r10', 'patch.diff'),
+                 'edits': [E(MQ, ".add_stream(&self.reader, &self.queue.manager, consumers),", ".add_stream(&self.reader, &self.queue.manager, 1),")],
+                 'note': 'add_shared_stream repaired: the stream starts with one consumer, every clone registers itself'})
+VARIANTS.append({'id': 'r10fix-list-walk-then-call', 'property': None, 'expect': [], 'kind': 'refactor', 'patch': _os.path.join(_SEED, 'C16-r10', 'patch.diff'),
+                 'edits': [E(RC, """            let rg = &*self.readers.load(CONSUME);
+            for reader_ptr in &rg.readers {
+                let rpos = (**reader_ptr).pos_data.load_count(MAYBE_ACQUIRE);
+                // A stream that is already past the sampled head has read everything
+                let (diff, tofar) = past(cur_writer, rpos);
+                f(if tofar { 0 } else { diff });
+            }""", """            let rg = &*self.readers.load(CONSUME);
+            let mut diffs = Vec::with_capacity(rg.readers.len());
+            for reader_ptr in &rg.readers {
+                let rpos = (**reader_ptr).pos_data.load_count(MAYBE_ACQUIRE);
+                // A stream that is already past the sampled head has read everything
+                let (diff, tofar) = past(cur_writer, rpos);
+                diffs.push(if tofar { 0 } else { diff });
+            }
+            for d in diffs {
+                f(d);
+            }""")],
+                 'note': 'for_each_stream repaired: the distances are collected during the walk, the user closure runs after it'})
+VARIANTS.append({'id': 'r10fix-futiter-notifying', 'property': None, 'expect': [], 'kind': 'refactor', 'patch': _os.path.join(_SEED, 'C14-r10', 'patch.diff'),
+                 'edits': [E(BC, """        match self.recv.receiver.try_recv_batched() {
+            Ok(val) => Some(val),
+            Err(_) => {
+                self.recv.receiver.wake_producers();
+                None
+            }
+        }""", """        self.recv.receiver.try_recv().ok()""")],
+                 'note': 'try_iter of the futures receiver repaired: every element is received through the notifying try_recv'})
+
